@@ -310,6 +310,16 @@ def step (s : Sys) (line : String) : IO Sys := do
       let (s, r) := s.run (opSet probe e a.ids a.vals)
       emitResult s (resStr r)
     | _, _ => skip
+  | ["getrel", e, _path, c] =>
+    match s.entOf e, s.compList c with
+    | some e, some [c] =>
+      -- `storage.getRelation`: alive check, component check, then the column's target (zero for non-relations)
+      if !s.w.alive e then emitResult s "panic deadEntity"
+      else
+        let (t, _) := s.w.index e.id
+        if !(s.w.tbl t).has c then emitResult s "panic missing"
+        else emitResult s s!"ok {(s.w.tbl t).getRelation c}"
+    | _, _ => skip
   | "setrel" :: e :: path :: rest =>
     match s.entOf e, s.compArgs rest with
     | some e, some a =>
